@@ -214,6 +214,7 @@ func (wt writeTxn) Create(v interface{}) error {
 		return err
 	}
 
+	verifPoint("store.committed", wt.id)
 	wt.st.callOnChange(wt.id, nil, v)
 	return nil
 }
@@ -259,6 +260,7 @@ func (wt writeTxn) Update(v interface{}) error {
 		return err
 	}
 
+	verifPoint("store.committed", wt.id)
 	wt.st.callOnChange(wt.id, before, v)
 	return nil
 }
@@ -301,6 +303,7 @@ func (wt writeTxn) Delete() error {
 		return err
 	}
 
+	verifPoint("store.committed", wt.id)
 	wt.st.callOnChange(wt.id, before, nil)
 	return nil
 }
@@ -388,6 +391,7 @@ func (st *Store) Init(cb func(add func(id string, v interface{})) error) error {
 		}
 
 		// Set init flag key
+		verifPoint("init.seeded", nil)
 		return txn.Set(initKey, nil)
 	})
 }
